@@ -40,6 +40,16 @@ pub fn round_price_down(p: f64, tick_size: f64) -> Price {
     p as Price
 }
 
+/// Largest price that is a multiple of the tick size
+///
+/// # Arguments
+///
+/// - `tick_size` - Tick size as a float
+///
+fn max_tick_price(tick_size: f64) -> f64 {
+    (f64::from(Price::MAX) / tick_size).floor() * tick_size
+}
+
 /// Filter active orders and randomly cancel them
 ///
 /// Filter a vec of [OrderId] for those that are active and
@@ -135,7 +145,10 @@ pub fn place_sell_limit_order<R: RngCore, D: Distribution<f64>>(
     trader_id: TraderId,
 ) -> Result<OrderId, OrderError> {
     let dist = price_dist.sample(rng).abs();
-    let price = mid_price + dist;
+    // Sampled prices beyond the price range are placed at the
+    // highest price level (the maximum price is not a
+    // multiple of most tick sizes)
+    let price = (mid_price + dist).min(max_tick_price(tick_size));
     let price = round_price_up(price, tick_size);
     env.place_order(Side::Ask, trade_vol, trader_id, Some(price))
 }
@@ -251,7 +264,10 @@ pub fn place_sell_limit_order_market<
     trader_id: TraderId,
 ) -> Result<MarketOrderId, OrderError> {
     let dist = price_dist.sample(rng).abs();
-    let price = mid_price + dist;
+    // Sampled prices beyond the price range are placed at the
+    // highest price level (the maximum price is not a
+    // multiple of most tick sizes)
+    let price = (mid_price + dist).min(max_tick_price(tick_size));
     let price = round_price_up(price, tick_size);
     env.place_order(asset, Side::Ask, trade_vol, trader_id, Some(price))
 }
